@@ -25,6 +25,57 @@ type pos struct{ X, Y int64 }
 type vel struct{ V int64 }
 type childOf struct{ ecs.RelationMarker }
 type tag struct{ T int32 }
+type c4 struct{ A int8 }
+type c5 struct{ A int16 }
+type c6 struct{ A [3]int64 }
+type c7 struct{ A int64 }
+type c8 struct{ A int32 }
+type c9 struct{ A int32 }
+
+// arityFilter creates a shared FilterN over the first n of (pos, vel, tag, c4..c8) and returns a body
+// that queries it and records the visited entities.
+func arityFilter(w *ecs.World, n int) func(r *tres) {
+	collect := func(next func() bool, ent func() ecs.Entity, r *tres) {
+		k := 0
+		for next() {
+			r.visited = append(r.visited, ent())
+			k++
+			if k > maxIter {
+				r.err = "runaway iteration"
+				return
+			}
+		}
+	}
+	switch n {
+	case 0:
+		f := ecs.NewFilter0(w)
+		return func(r *tres) { q := f.Query(); collect(q.Next, q.Entity, r) }
+	case 1:
+		f := ecs.NewFilter1[pos](w)
+		return func(r *tres) { q := f.Query(); collect(q.Next, q.Entity, r) }
+	case 2:
+		f := ecs.NewFilter2[pos, vel](w)
+		return func(r *tres) { q := f.Query(); collect(q.Next, q.Entity, r) }
+	case 3:
+		f := ecs.NewFilter3[pos, vel, tag](w)
+		return func(r *tres) { q := f.Query(); collect(q.Next, q.Entity, r) }
+	case 4:
+		f := ecs.NewFilter4[pos, vel, tag, c4](w)
+		return func(r *tres) { q := f.Query(); collect(q.Next, q.Entity, r) }
+	case 5:
+		f := ecs.NewFilter5[pos, vel, tag, c4, c5](w)
+		return func(r *tres) { q := f.Query(); collect(q.Next, q.Entity, r) }
+	case 6:
+		f := ecs.NewFilter6[pos, vel, tag, c4, c5, c6](w)
+		return func(r *tres) { q := f.Query(); collect(q.Next, q.Entity, r) }
+	case 7:
+		f := ecs.NewFilter7[pos, vel, tag, c4, c5, c6, c7](w)
+		return func(r *tres) { q := f.Query(); collect(q.Next, q.Entity, r) }
+	default:
+		f := ecs.NewFilter8[pos, vel, tag, c4, c5, c6, c7, c8](w)
+		return func(r *tres) { q := f.Query(); collect(q.Next, q.Entity, r) }
+	}
+}
 
 // result of one thread
 type tres struct {
@@ -288,6 +339,57 @@ func scenarios() []scenario {
 		}
 		exp := []tres{{visited: fx.children[0], sum: sumOf(w, fx.children[0])}, {visited: fx.children[0], sum: sumOf(w, fx.children[0])}}
 		return []func(*tres){body, body}, exp, finalCheck(w, 0)
+	}})
+
+	// --- every generated filter arity (Filter0..Filter8), shared and un-cached, first use concurrent
+	for n := 0; n <= 8; n++ {
+		n := n
+		out = append(out, scenario{name: fmt.Sprintf("shared-uncached-arity%d/2thr", n), threads: 2, build: func() ([]func(*tres), []tres, func() string) {
+			w := ecs.NewWorld(4)
+			iter := arityFilter(w, n) // filter created before the archetypes
+			ids := []ecs.ID{ecs.ComponentID[pos](w), ecs.ComponentID[vel](w), ecs.ComponentID[tag](w), ecs.ComponentID[c4](w),
+				ecs.ComponentID[c5](w), ecs.ComponentID[c6](w), ecs.ComponentID[c7](w), ecs.ComponentID[c8](w)}
+			var all []ecs.Entity
+			for k := 0; k < 3; k++ {
+				all = append(all, w.Unsafe().NewEntity(ids...))
+			}
+			all = append(all, w.Unsafe().NewEntity(append([]ecs.ID{ecs.ComponentID[c9](w)}, ids...)...))
+			if n == 0 {
+				all = append(all, w.NewEntity())
+			} else {
+				w.NewEntity()
+			}
+			body := func(r *tres) { iter(r) }
+			exp := []tres{{visited: all}, {visited: all}}
+			return []func(*tres){body, body}, exp, finalCheck(w, 0)
+		}})
+	}
+
+	// --- shared UnsafeFilter with per-goroutine relation targets
+	out = append(out, scenario{name: "shared-unsafe-relation-targets/2thr", threads: 2, build: func() ([]func(*tres), []tres, func() string) {
+		w := ecs.NewWorld(4)
+		pid := ecs.ComponentID[pos](w)
+		cid := ecs.ComponentID[childOf](w)
+		flt := ecs.NewUnsafeFilter(w, pid, cid)
+		fx := populate(w)
+		var bodies []func(*tres)
+		var exp []tres
+		for i := 0; i < 2; i++ {
+			p := i
+			bodies = append(bodies, func(r *tres) {
+				q := flt.Query(ecs.RelID(cid, fx.parents[p]))
+				r.count = q.Count()
+				for q.Next() {
+					r.visited = append(r.visited, q.Entity())
+					r.sum += (*pos)(q.Get(pid)).X
+					if q.GetRelation(cid) != fx.parents[p] {
+						r.err = "query yields an entity of another parent"
+					}
+				}
+			})
+			exp = append(exp, tres{visited: fx.children[p], sum: sumOf(w, fx.children[p]), count: len(fx.children[p])})
+		}
+		return bodies, exp, finalCheck(w, 0)
 	}})
 
 	// --- unsafe filter shared
